@@ -116,10 +116,20 @@ def run(tier, seed):
     from ipcdriver import IpcDriver
     traces, meta = [], {}
     drift = 0
+    nspin = 0
     for n, b, closers in behs:
         drv = IpcDriver(list(range(1, n + 1)), closers=closers)
         try:
-            res = drv.run(b["steps"])
+            with common.deadline(60):
+                res = drv.run(b["steps"])
+        except common.Spinning:
+            vd.violation({"what": f"real NetworkClient: the io loop does not give control back (60 s) in schedule "
+                                  f"{[(s_['a'], s_.get('c', s_.get('id', ''))) for s_ in b['steps']]}", "clause": "LoopSpins",
+                          "steps": b["steps"], "callers": list(range(1, n + 1)), "closers": closers})
+            nspin += 1
+            if nspin >= 2:
+                break
+            continue
         except Exception as e:
             raise MachineryError(f"driver failed on {b['steps']}: {type(e).__name__}: {e}")
         tid = len(traces)
